@@ -15,6 +15,7 @@ from __future__ import annotations
 import itertools
 import os
 
+import numpy as np
 import torch
 from torch.utils.data import default_collate
 
@@ -26,7 +27,9 @@ from .h18_members import (FIXED_TENSOR_ITEMS, FLOAT_ITEMS, OTHER_ITEMS, SEQ_ITEM
                           edit_value, eq, snap)
 
 LEVEL = "exploration"
-RULE = ("four case families. 'pipe': a harness sequence dataset (fixed shapes), a mode of 1..4 distinct items (tensors "
+RULE = ("four case families (pipe and pad cases additionally: 15% use the object returned by set_rng / worker_init_fn as "
+        "collate_fn, 25% are built with another dataset_mode / return_ctx / member list and moved to the final configuration "
+        "through the public attributes, from outside or in a subclass constructor). 'pipe': a harness sequence dataset (fixed shapes), a mode of 1..4 distinct items (tensors "
         "of several ranks/dtypes, 0-dim tensor, python int / float / bool, numpy float64 / int16 scalars, str, index, ctx.<key>), return_ctx, B in 1..8 sample indices "
         "(random order, optional repeats), a member order of length 1..4 over {before, after, none (collates itself), "
         "none-raw (per-sample member that returns the samples uncollated)} (all 156 driven orders are enumerated first, "
@@ -60,8 +63,13 @@ ASSUMPTIONS = [
     "length, order, dtype, shape and content are exact",
     "per-sample ctx entries are ints, floats, strings and fixed-shape tensors with identical key sets across the batch "
     "(what default collation can batch); ctx values of ragged shape are not driven",
-    "items are tensors, python ints / floats (incl. values float32 cannot represent) / bools, numpy scalars, strings; items that are themselves tuples/dicts are not driven for the padding collator",
+    "items are tensors, python ints / floats (incl. values float32 cannot represent) / bools, numpy scalars, strings, python lists / nested lists / tuples of numbers, dicts; for the padding collator a tuple-valued item as the only item and a (tuple item, dict item) pair in the first two mode positions are not driven - the collator recognises sample tuples and (items, ctx) samples by exactly these shapes; items that are themselves tuples/dicts are not driven for the padding collator",
     "KDSingleCollatorWrapper is held to the same contract as KDComposeCollator with one member",
+    "setters: whatever set_rng / worker_init_fn return (self on the current tree for set_rng, None for worker_init_fn) must, "
+    "when it is an object, serve as collate_fn exactly like the object the setter was called on",
+    "the public attributes dataset_mode, return_ctx, collators (compose) / collator (wrapper) are read at call time by all "
+    "three entry classes on the current tree: a call follows the values the object reports then, also when a subclass "
+    "constructor changed them after super().__init__",
     "a padding collator instance is stateless across batches: every result it returned stays correct while later "
     "batches go through the same instance (results are kept, as a prefetching DataLoader keeps them, and verified at the end)",
     "one member instance may sit behind several entry points (wrappers, composes, its own direct configuration); every "
@@ -69,7 +77,7 @@ ASSUMPTIONS = [
     "state in the harness is its log; stateful members are not driven)",
 ]
 MONITORS = ["pipeline_outputs_checked", "member_inputs_checked", "ctx_merges_checked", "order_refusals_checked",
-            "pad_fields_checked", "pad_other_fields_checked", "pad_ctx_checked", "shared_entry_calls_checked", "pad_history_results_checked"]
+            "pad_fields_checked", "pad_other_fields_checked", "pad_ctx_checked", "shared_entry_calls_checked", "pad_history_results_checked", "fluent_returns_used", "reconfigured_calls_checked"]
 
 REFUSAL = "raw-member-after-collation"
 K_WRAPPER = "wrapper:bypasses-pipeline"
@@ -123,6 +131,18 @@ def _pick_mode(rng, pool, n, need=None):
     return items
 
 
+def _pad_safe(items):
+    """the padding collator tells a sample tuple from an item by `isinstance(..., tuple)` and a (items, ctx) sample by
+    'first entry is a tuple, second a dict': a tuple-valued item as the only item, or a tuple item followed by a dict
+    item in the first two positions, is ambiguous by construction -> not driven (see ASSUMPTIONS)"""
+    items = list(items)
+    if items == ["tup"]:
+        return ["ilist"]
+    if len(items) >= 2 and items[0] == "tup" and items[1] == "dct":
+        items[0], items[1] = items[1], items[0]
+    return items
+
+
 def _idxs(rng, nd, B):
     if rng.random() < 0.2:
         return [rng.randrange(nd) for _ in range(B)]
@@ -169,9 +189,9 @@ def _gen_pipe(rng, i):
     builder = "compose"
     if len(order) == 1:
         builder = ["single", "wrapper", "compose"][(i // len(ORDERS)) % 3] if i < 3 * len(ORDERS) else rng.choice(["single", "wrapper", "compose"])
-    return {"fam": "pipe", "order": order, "members": members, "builder": builder, "mode": " ".join(mode),
+    return _gen_extras(rng, builder, mode, {"fam": "pipe", "order": order, "members": members, "builder": builder, "mode": " ".join(mode),
             "ctx": rng.random() < 0.5 and not _ctx_excluded(order), "B": B, "nd": nd, "idxs": _idxs(rng, nd, B),
-            "la": rng.choice([0, 1, 2, 3, 3]), "lb": rng.choice([0, 1, 2]), "trail": rng.choice([[], [], [1], [3], [2, 2]])}
+            "la": rng.choice([0, 1, 2, 3, 3]), "lb": rng.choice([0, 1, 2]), "trail": rng.choice([[], [], [1], [3], [2, 2]])})
 
 
 def _gen_pad(rng, i):
@@ -183,15 +203,16 @@ def _gen_pad(rng, i):
         mode = _pick_mode(rng, list(OTHER_ITEMS), n)                       # no tensor field of ndim > 0 at all
     else:
         mode = _pick_mode(rng, PIPE_ITEMS, n, need=list(SEQ_ITEMS))
+    mode = _pad_safe(mode)
     builder = rng.choice(["compose", "compose", "single", "wrapper"])
     sample_ctx = rng.random() < 0.5
     ret_ctx = sample_ctx
     if sample_ctx and builder != "wrapper" and rng.random() < 0.5:
         ret_ctx = False  # configuration pinned by tests_unit/collators/test_pad_sequences_collator.py
     prof = PROFILES[i % len(PROFILES)] if i < 60 else rng.choice(PROFILES)
-    return {"fam": "pad", "builder": builder, "mode": " ".join(mode), "sample_ctx": sample_ctx, "ret_ctx": ret_ctx,
+    return _gen_extras(rng, builder, mode, {"fam": "pad", "builder": builder, "mode": " ".join(mode), "sample_ctx": sample_ctx, "ret_ctx": ret_ctx,
             "B": B, "nd": nd, "idxs": _idxs(rng, nd, B), "profile": prof, "la": _lens(rng, prof, nd),
-            "lb": _lens(rng, rng.choice(PROFILES), nd), "trail": rng.choice([[], [], [1], [3], [2, 2]])}
+            "lb": _lens(rng, rng.choice(PROFILES), nd), "trail": rng.choice([[], [], [1], [3], [2, 2]])})
 
 
 def _gen_shared(rng, i):
@@ -237,6 +258,7 @@ def _gen_padhist(rng, i):
     mode = _pick_mode(rng, PIPE_ITEMS, n, need=list(SEQ_ITEMS))
     if n == 1 and i % 2 == 0:
         mode = [rng.choice(SEQ_ITEMS)]
+    mode = _pad_safe(mode)
     builder = ["compose", "single", "wrapper"][i % 3] if i < 30 else rng.choice(["compose", "compose", "single", "wrapper"])
     sample_ctx = rng.random() < 0.4
     ret_ctx = sample_ctx
@@ -369,6 +391,87 @@ def _build_batch(run, spec, has_ctx):
         return None
     st, batch = _guarded(run, lambda: [mw[i] for i in spec["idxs"]], None, "modewrapper:crash", "ModeWrapper.__getitem__")
     return batch if st == "ok" else None
+
+
+# ------------------------------------------------------------------------------------------------ fluent setters / reconfiguration
+K_FLUENT = "fluent:returned-object-not-equivalent"
+K_RECONF = "reconfigured:call-does-not-follow-attributes"
+
+
+def _gen_extras(rng, builder, mode_items, spec):
+    """(a) use what set_rng / worker_init_fn returns as the collate_fn; (b) build with another configuration and move to
+    the final one through the public attributes (from outside, or in a subclass constructor after super().__init__)"""
+    r = rng.random()
+    if r < 0.15:
+        spec["fluent"] = rng.choice(["set_rng", "set_rng", "worker_init_fn"])
+    elif r < 0.40:
+        third = "collators" if builder != "single" else None
+        attrs = [a for a in ("return_ctx", "dataset_mode", third) if a and rng.random() < 0.6] or ["return_ctx"]
+        other = list(reversed(mode_items)) if len(mode_items) > 1 and rng.random() < 0.5 else ["index"] if mode_items != ["index"] else ["class"]
+        spec["reconf"] = {"attrs": attrs, "style": rng.choice(["assign", "subclass"]) if builder != "single" else "assign",
+                          "mode0": " ".join(m for m in other if not m.startswith("ctx.")) or "index"}
+    return spec
+
+
+def _configured(cls, init_kwargs, overrides, style):
+    if style == "subclass":
+        class Sub(cls):
+            def __init__(self):
+                super().__init__(**init_kwargs)
+                for k, v in overrides.items():
+                    setattr(self, k, v)
+        return Sub()
+    obj = cls(**init_kwargs)
+    for k, v in overrides.items():
+        setattr(obj, k, v)
+    return obj
+
+
+def _initial_config(mode, ctx, reconf):
+    attrs = (reconf or {}).get("attrs", [])
+    return (reconf["mode0"] if "dataset_mode" in attrs else mode), ((not ctx) if "return_ctx" in attrs else ctx)
+
+
+def _build_entry(builder, first, members, mode, ctx, reconf, make_decoy):
+    """the collate_fn under test. Without `reconf` it is constructed with (mode, ctx, members); with it, the attributes
+    named in reconf['attrs'] are constructed with other values and then set to the final ones."""
+    attrs = (reconf or {}).get("attrs", [])
+    style = (reconf or {}).get("style", "assign")
+    mode_c = reconf["mode0"] if "dataset_mode" in attrs else mode
+    ctx_c = (not ctx) if "return_ctx" in attrs else ctx
+    ov = {}
+    if "dataset_mode" in attrs:
+        ov["dataset_mode"] = mode
+    if "return_ctx" in attrs:
+        ov["return_ctx"] = ctx
+    if builder == "single":
+        # `first` was constructed by the caller with _initial_config(...) as its own dataset_mode / return_ctx
+        for k, v in ov.items():
+            setattr(first, k, v)
+        return first
+    if builder == "wrapper":
+        inner = make_decoy() if "collators" in attrs else first
+        if "collators" in attrs:
+            ov["collator"] = first
+        return _configured(KDSingleCollatorWrapper, dict(collator=inner, dataset_mode=mode_c, return_ctx=ctx_c), ov, style)
+    cols = [make_decoy()] if "collators" in attrs else list(members)
+    if "collators" in attrs:
+        ov["collators"] = list(members)
+    return _configured(KDComposeCollator, dict(collators=cols, dataset_mode=mode_c, return_ctx=ctx_c), ov, style)
+
+
+def _apply_fluent(run, coll, fluent, desc):
+    """-> (collate_fn to use, key override or None)"""
+    if not fluent:
+        return coll, None
+    fn = (lambda: coll.set_rng(np.random.default_rng(5))) if fluent == "set_rng" else (lambda: coll.worker_init_fn(0))
+    st, ret = _guarded(run, fn, None, "fluent:setter-crash", f"{desc}: {fluent}")
+    if st != "ok":
+        return None, None
+    if ret is None:
+        return coll, None
+    run.count("fluent_returns_used")
+    return ret, (K_FLUENT if ret is not coll else None)   # identity only picks the key, the verdict is behavioural
 
 
 # ------------------------------------------------------------------------------------------------ pipe family
@@ -535,21 +638,27 @@ def _run_pipe(run, spec):
     if batch is None:
         return
     mspecs = spec["members"]
-    members = [RecMember(k, m["cmode"], m["op"], keep_raw=bool(m.get("raw")), **({"dataset_mode": mode, "return_ctx": has_ctx} if builder == "single" else {}))
+    reconf, fluent = spec.get("reconf"), spec.get("fluent")
+    mode_c, ctx_c = _initial_config(mode, has_ctx, reconf)
+    members = [RecMember(k, m["cmode"], m["op"], keep_raw=bool(m.get("raw")), **({"dataset_mode": mode_c, "return_ctx": ctx_c} if builder == "single" else {}))
                for k, m in enumerate(mspecs)]
-
-    def construct():
-        if builder == "single":
-            return members[0]
-        if builder == "wrapper":
-            return KDSingleCollatorWrapper(members[0], dataset_mode=mode, return_ctx=has_ctx)
-        return KDComposeCollator(members, dataset_mode=mode, return_ctx=has_ctx)
-
-    st, coll = _guarded(run, construct, None, (K_WRAPPER if builder == "wrapper" else "pipeline:constructor"), f"constructing {desc}")
+    if reconf:
+        desc += f" [built with other {reconf['attrs']} (dataset_mode {reconf['mode0']!r}), then set via attributes, style {reconf['style']}]"
+        run.cover("reconf", builder, tuple(reconf["attrs"]), reconf["style"])
+    if fluent:
+        desc += f" [collate_fn = what {fluent}() returned, if anything]"
+        run.cover("fluent", builder, fluent)
+    kover = K_RECONF if reconf else None
+    st, coll = _guarded(run, lambda: _build_entry(builder, members[0], members, mode, has_ctx, reconf, lambda: RecMember(9, "before", None)),
+                        None, kover or (K_WRAPPER if builder == "wrapper" else "pipeline:constructor"), f"constructing {desc}")
     if st != "ok":
         return
-
-    _judge(run, desc, coll, members, mspecs, mode, has_ctx, builder, batch)
+    coll, kfl = _apply_fluent(run, coll, fluent, desc)
+    if coll is None:
+        return
+    if reconf:
+        run.count("reconfigured_calls_checked")
+    _judge(run, desc, coll, members, mspecs, mode, has_ctx, builder, batch, kover=kfl or kover)
 
 
 # ------------------------------------------------------------------------------------------------ pad family
@@ -633,21 +742,30 @@ def _run_pad(run, spec):
     fields, is_seq = _pad_fields(raw, n)
     run.cover("pad", builder, sctx, rctx, min(n, 3), spec["profile"], min(spec["B"], 2), any(is_seq))
 
+    reconf, fluent = spec.get("reconf"), spec.get("fluent")
+    mode_c, ctx_c = _initial_config(mode, rctx, reconf)
+    if reconf:
+        desc += f" [built with other {reconf['attrs']} (dataset_mode {reconf['mode0']!r}), then set via attributes, style {reconf['style']}]"
+        run.cover("reconf-pad", builder, tuple(reconf["attrs"]), reconf["style"])
+    if fluent:
+        desc += f" [collate_fn = what {fluent}() returned, if anything]"
+        run.cover("fluent-pad", builder, fluent)
+    kov = [K_RECONF if reconf else None]
+
     def construct():
-        if builder == "single":
-            return PadSequencesCollator(dataset_mode=mode, return_ctx=rctx)
-        if builder == "wrapper":
-            return KDSingleCollatorWrapper(PadSequencesCollator(), dataset_mode=mode, return_ctx=rctx)
-        return KDComposeCollator([PadSequencesCollator()], dataset_mode=mode, return_ctx=rctx)
+        pad = PadSequencesCollator(**({"dataset_mode": mode_c, "return_ctx": ctx_c} if builder == "single" else {}))
+        return _build_entry(builder, pad, [pad], mode, rctx, reconf, lambda: RecMember(9, "before", None))
 
     bare_nonseq = n == 1 and not is_seq[0]
 
     def key(default):
+        if kov[0] is not None:
+            return kov[0]
         return K_WRAPPER if builder == "wrapper" else default
 
     def crash_key(e, kind):
-        if builder == "wrapper":
-            return K_WRAPPER
+        if kov[0] is not None or builder == "wrapper":
+            return key(None)
         if bare_nonseq:
             return K_PAD_BARE
         return "pad:refused-in-domain" if kind == "guard" else "pad:crash"
@@ -655,6 +773,12 @@ def _run_pad(run, spec):
     st, coll = _guarded(run, construct, None, key("pad:constructor"), f"constructing {desc}")
     if st != "ok":
         return
+    coll, kfl = _apply_fluent(run, coll, fluent, desc)
+    if coll is None:
+        return
+    kov[0] = kfl or kov[0]
+    if reconf:
+        run.count("reconfigured_calls_checked")
     st, res = _guarded(run, lambda: coll(batch), None, crash_key, desc)
     if st != "ok":
         return
@@ -737,6 +861,7 @@ def _probe(run):
     from collections import Counter
     p = _probes.pop() if _probes else core.Run(run.pid, run.tier, run.seed, run.level)
     p.known, p.counters, p.refusals, p.violations, p.known_hits, p.samples = {}, Counter(), Counter(), [], Counter(), []
+    p.classes = set()
     p._cur_spec = run._cur_spec
     return p
 
@@ -803,11 +928,22 @@ def _run_shared(run, spec):
 
 
 def run_case(run, spec):
-    if spec["fam"] == "pipe":
-        _run_pipe(run, spec)
-    elif spec["fam"] == "shared":
-        _run_shared(run, spec)
-    elif spec["fam"] == "padhist":
-        _run_padhist(run, spec)
-    else:
-        _run_pad(run, spec)
+    fn = {"pipe": _run_pipe, "shared": _run_shared, "padhist": _run_padhist, "pad": _run_pad}[spec["fam"]]
+    if not (spec.get("reconf") or spec.get("fluent")):
+        return fn(run, spec)
+    # differential classification: a case with a fluent setter / reconfiguration that fails is re-run plainly built. Fails
+    # there too -> an ordinary defect under its own key; only fails here -> the fluent / reconfiguration mechanism
+    pr = _probe(run)
+    fn(pr, spec)
+    if not pr.violations:
+        run.counters.update(pr.counters)
+        run.refusals.update(pr.refusals)
+        run.classes.update(pr.classes)
+        for smp in pr.samples:
+            run.sample(smp)
+        _probes.append(pr)
+        return
+    plain = _probe(run)
+    fn(plain, {k: v for k, v in spec.items() if k not in ("reconf", "fluent")})
+    for v in (plain.violations or pr.violations)[:2]:
+        run.violation(v["key"], v["what"])
